@@ -1,0 +1,96 @@
+//go:build verif
+
+// Contracts for govc (/verif): C09 "A snapshot is final only with a threshold certificate from historical keys"
+// (kernel/graph.go: cacheVerifyCosi, verifyFinalization). Comment-only file.
+//
+// Byte-level certificate predicate. The verification cache remembers results under a key made of BYTES
+// (hash | signature | key_0 | … | key_n-1 | be64(threshold) | be64(mask)), so "a remembered result equals a fresh
+// verification" needs the certificate predicate as a function of those bytes:
+//   KeyPrefix(h, s, publics, n)   seq code of  h | s | *publics[0] | … | *publics[n-1]          (rec over the key vector)
+//   SigP(pfx, m)                  "mask m fits the key vector encoded in pfx and the signature in pfx verifies over the hash
+//                                  in pfx under the aggregate of exactly the keys at the set positions of m"  (uninterpreted)
+//   CertB(pfx, t, m)              t > 0 && popcount(m) >= t && SigP(pfx, m)
+// The axiom T-CRYPTO-BYTES ties SigP to the heap-level facts FullVerify establishes (crypto/zz_contracts_c13_verif.go):
+// MaskInRange and SigOK over crypto.AggKey depend only on the BYTES of the keys, the hash and the signature.
+
+package kernel
+
+//@ rec KeyPrefix(h mathint, s mathint, publics []*crypto.Key, n int) mathint =
+//@     n <= 0 ? cat(h, s) : cat(KeyPrefix(h, s, publics, n - 1), seq(*publics[n - 1]))
+//@ reclimit KeyPrefix
+//@ uninterp SigP(pfx mathint, m mathint) bool
+//@ spec CertB(pfx mathint, t mathint, m mathint) bool = t > 0 && crypto.PopUpTo(m, 64) >= t && SigP(pfx, m)
+//@ spec KeysNonNil(publics []*crypto.Key) bool = forall i int :: 0 <= i && i < len(publics) ==> publics[i] != nil
+//@ -- T-CRYPTO-BYTES (ASSUMED; the only way to establish SigP): what FullVerify establishes about (hash, signature, keys, mask)
+//@ -- is a property of their byte content. h and s are seq codes; SigOK holds only for a 32-byte hash code and a 64-byte
+//@ -- signature code, so pfx = h | s | keys parses back uniquely wherever the premise holds.
+//@ axiom @C09 forall h mathint, s mathint, publics []*crypto.Key, m uint64 :: {crypto.SigOK(seq(crypto.AggKey(publics, m)), h, s)}
+//@     KeysNonNil(publics) && crypto.MaskInRange(m, publics) && crypto.SigOK(seq(crypto.AggKey(publics, m)), h, s) ==> SigP(KeyPrefix(h, s, publics, len(publics)), m)
+
+//@ -- the cache key: prefix | be64(threshold) | be64(mask). CKey is the concatenation (definition) and, the last 16 bytes
+//@ -- being two fixed-width fields, it can be parsed back (T-BYTES, ASSUMED: cat is the concatenation of byte strings).
+//@ uninterp CKey(pfx mathint, t mathint, m mathint) mathint
+//@ uninterp CKeyPfx(k mathint) mathint
+//@ uninterp CKeyT(k mathint) mathint
+//@ uninterp CKeyM(k mathint) mathint
+//@ axiom @C09 forall p, t, m mathint :: {CKey(p, t, m)} CKey(p, t, m) == cat(cat(p, Be64Of(t)), Be64Of(m))
+//@ axiom @C09 forall p, t, m mathint :: {CKey(p, t, m)} 0 <= t && t < 18446744073709551616 && 0 <= m && m < 18446744073709551616 ==>
+//@     CKeyPfx(CKey(p, t, m)) == p && CKeyT(CKey(p, t, m)) == t && CKeyM(CKey(p, t, m)) == m
+
+//@ spec CacheVer(node *Node) mathint = ghostint(cachever, node.cacheStore)
+//@ -- CacheInv: every remembered entry that has the shape of a success record (32 bytes per set mask position, at least one)
+//@ -- sits under the key of a certificate that verifies. Established by an empty cache; preserved by cacheVerifyCosi.
+//@ spec CacheInv(node *Node) bool = forall p, t, m mathint :: {ristretto.chas(CacheVer(node), CKey(p, t, m))}
+//@     0 <= t && t < 18446744073709551616 && 0 <= m && m < 18446744073709551616 &&
+//@     ristretto.chas(CacheVer(node), CKey(p, t, m)) && crypto.PopUpTo(m, 64) > 0 && ristretto.cvlen(CacheVer(node), CKey(p, t, m)) == 32 * crypto.PopUpTo(m, 64) ==> CertB(p, t, m)
+
+//@ func convertBytesToSigners
+//@   property C09
+//@   requires sig != nil
+//@   modifies nothing
+//@   ensures [len] len(result) == (len(b) == 32 * crypto.PopUpTo(sig.Mask, 64) ? crypto.PopUpTo(sig.Mask, 64) : 0)
+//@   loop 0 invariant true
+
+//@ func convertSignersToBytes
+//@   property C09
+//@   modifies nothing
+//@   ensures [len] len(result) == 32 * len(signers) && (len(signers) > 0 ==> fresh(result))
+//@   loop 0 invariant len(b) == 32 * (rangeindex + 1) && (cap(b) == 0 || fresh(b))
+
+//@ func (node *Node) cacheVerifyCosi
+//@   property C09, C10
+//@   uses readsframe, blockframe, entryclosure
+//@   requires node != nil && node.cacheStore != nil && sig != nil && KeysNonNil(publics) && len(cids) == len(publics) && threshold >= 0
+//@   requires [inv] CacheInv(node)
+//@   modifies ghost cachever
+//@   ensures [inv] CacheInv(node)
+//@   ensures [cert] result1 ==> CertB(KeyPrefix(seq(snap), old(seq(sig.Signature)), publics, len(publics)), threshold, sig.Mask)
+//@   ensures [signers] result1 ==> len(result0) == crypto.PopUpTo(sig.Mask, 64) && len(result0) > 0
+//@   hint after Get [key] callresult1 ==> ristretto.chas(CacheVer(node), CKey(KeyPrefix(seq(snap), old(seq(sig.Signature)), publics, len(publics)), threshold, sig.Mask)) &&
+//@       len(unbox(callresult0, byteslice)) == ristretto.cvlen(CacheVer(node), CKey(KeyPrefix(seq(snap), old(seq(sig.Signature)), publics, len(publics)), threshold, sig.Mask))
+//@   loop 0 invariant fresh(key) && len(key) >= 96 && cur_snap == snap && arr(key) != &cur_snap
+//@   loop 0 invariant [prefix] seq(key) == KeyPrefix(seq(snap), old(seq(sig.Signature)), publics, rangeindex + 1)
+//@   hint after Get [keyeq] seq(key) == CKey(KeyPrefix(seq(snap), old(seq(sig.Signature)), publics, len(publics)), threshold, sig.Mask)
+//@   loop 1 invariant [keyeq] seq(key) == CKey(KeyPrefix(seq(snap), old(seq(sig.Signature)), publics, len(publics)), threshold, sig.Mask)
+
+//@ -- the timestamp the certificate is checked at (one hard-coded mainnet snapshot is checked one minute earlier) and the pre-fork legacy
+//@ -- timestamp: the start of the node-operation window, (hour + 1 - KernelNodeAcceptTimeBegin) hours back
+//@ spec TsOf(s *common.Snapshot) int = s.Hash.String() == mainnetNodeRemovalHackSnapshotHash ? U64(s.Timestamp - 60000000000) : s.Timestamp
+//@ spec LegacyTs(node *Node, ts uint64) int = U64(ts - U64((HourOf(node, ts) + 1 - config.KernelNodeAcceptTimeBegin) * 3600000000000))
+//@ -- CertAt(chain, s, ts): the snapshot's certificate verifies against the key vector ConsensusKeys(round, ts) with THE threshold at ts
+//@ spec CertAt(chain *Chain, s *common.Snapshot, ts uint64) bool =
+//@     CertB(CKPrefix(chain, s.RoundNumber, ts, seq(s.Hash), seq(s.Signature.Signature)), CertThresholdAt(chain.node, ts, true), s.Signature.Mask)
+
+//@ func (chain *Chain) verifyFinalization
+//@   property C09, C10
+//@   uses readsframe
+//@   requires chain != nil && NodeRep(chain.node) && s != nil && chain.node.cacheStore != nil
+//@   requires [inv] CacheInv(chain.node)
+//@   modifies ghost cachever
+//@   hint at "legacyIDs, legacyPublics := chain.ConsensusKeys(s.RoundNumber, legacyTimestamp)" [legacy-ts] timestamp == TsOf(s) &&
+//@       legacyTimestamp == LegacyTs(chain.node, timestamp) && AcceptHour(chain.node, timestamp) && !Predictive(chain.node, timestamp)
+//@   ensures [inv] CacheInv(chain.node)
+//@   ensures [shape] result1 ==> s.Version == common.SnapshotVersionCommonEncoding && s.Signature != nil && s.Signature.Mask != 0 && TsOf(s) >= chain.node.Epoch
+//@   ensures [signers] result1 ==> len(result0) == crypto.PopUpTo(s.Signature.Mask, 64) && len(result0) > 0
+//@   ensures [cert] result1 ==> old(CertAt(chain, s, TsOf(s))) ||
+//@       (!Predictive(chain.node, TsOf(s)) && AcceptHour(chain.node, TsOf(s)) && old(CertAt(chain, s, LegacyTs(chain.node, TsOf(s)))))
